@@ -1,30 +1,59 @@
 (* C15 - Reported source lines are the lines where things actually are.
-   Proved here (token level, all inputs): every word the tokenizer returns carries the line on which
-   its first character stands, whatever precedes it (blank lines, comments, multi-line quoted words,
-   continuations), the position handed on has advanced by exactly the newlines consumed, and a
-   missing-closing-quote error cites the last line of the input.  The parser copies these numbers
-   into scopes/definitions (lead word) and error messages; that copying, the '#phil __OFF__' scanner
-   and the unused-definition reports are tied to the code by the correspondence stream with line
-   numbers kept (PARTIAL: no parser-level line theorem yet). *)
+   Theorems over the tokenizer + parser model, for every input text and every oracle table:
+   - every token carries the line of its first character whatever precedes it (blank lines, comments,
+     multi-line quoted words, continuations) and positions advance by exactly the newlines consumed;
+   - the '#phil __OFF__' region scanner keeps the line counter consistent for regions of any content;
+   - every scope and definition of a parsed tree reports the line of the word that named it, every value
+     word its own line (dotted-name prefix scopes carry no line): parse_lines_ok;
+   - every error cites the line of the token it names (or the last line for a missing closing quote, or
+     no line, or a line handed through from an oracle answer): parse_error_cites / _token_line / _line_ok.
+   Unused-definition reports and value-conversion errors are covered by C06's and C10's streams; the
+   source label is not varied.  The correspondence stream compares every line number freephil reports
+   with the model's on renderings whose generator records the true line of every token. *)
 From Coq Require Import List Ascii String.
-From Phil Require Import Base Tokenizer LexProofs.
+From Phil Require Import Base Tokenizer Tree Parser LexProofs ParserLines.
 Import ListNotations.
 
-Theorem C15_word_line_partial : forall σ ic s line w r l',
+Theorem C15_word_line : forall σ ic s line w r l',
   nw σ ic s line = TWord w r l' ->
-  exists pre body, s = pre ++ body ++ r
-                   /\ wline w = line + count_nl pre
-                   /\ l' = line + count_nl (pre ++ body)
-                   /\ body <> [].
-Proof. exact nw_lines. Qed.
-Print Assumptions C15_word_line_partial.
+  exists pre body, s = pre ++ body ++ r /\ wline w = line + count_nl pre
+                   /\ l' = line + count_nl (pre ++ body) /\ word_src w body.
+Proof. exact nw_lines_src. Qed.
+Print Assumptions C15_word_line.
 
 Theorem C15_missing_quote_line : forall σ ic s line l,
   nw σ ic s line = TErrQuote l -> l = line + count_nl s.
 Proof. exact nw_err_line. Qed.
 Print Assumptions C15_missing_quote_line.
 
-(* non-vacuity: third word of a text with a comment, a blank line and a multi-line quoted word *)
+Theorem C15_off_region_scanner_counts_lines : forall inp fuel s line r l' fu,
+  pos_ok inp s line -> sfs fuel s line = (r, l', fu) -> pos_ok inp r l'.
+Proof. exact sfs_pos. Qed.
+Print Assumptions C15_off_region_scanner_counts_lines.
+
+Theorem C15_object_and_word_lines : forall o inp objs,
+  parse o inp = Ok objs -> Forall (obj_lines_ok inp) objs.
+Proof. exact parse_lines_ok. Qed.
+Print Assumptions C15_object_and_word_lines.
+
+Theorem C15_error_cites_its_token : forall o inp kind tok l,
+  parse o inp = UErr kind tok l -> err_ok o inp kind tok l.
+Proof. exact parse_error_cites. Qed.
+Print Assumptions C15_error_cites_its_token.
+
+Theorem C15_syntax_error_token_line : forall o inp kind tok l,
+  parse o inp = UErr kind tok l -> In kind direct_kinds ->
+  (exists key, In (key, UErr kind tok l) o)
+  \/ exists w, word_placed inp w /\ wline w = l /\ suffix tok (str_of_word w).
+Proof. exact parse_error_token_line. Qed.
+Print Assumptions C15_syntax_error_token_line.
+
+Theorem C15_error_line_within_text : forall o inp kind tok l,
+  oracle_lines_ok inp o -> parse o inp = UErr kind tok l -> l = 0 \/ l <= 1 + count_nl inp.
+Proof. exact parse_error_line_ok. Qed.
+Print Assumptions C15_error_line_within_text.
+
+(* non-vacuity *)
 Example C15_example :
   tokenize s0 (s_ "a # c
 = 'x
